@@ -289,14 +289,19 @@ def judge_c07(ctx, idx, op, impl, mi, ms, reason):
     if op[0] == "sdec":
         lab = label_kv(ctx.case_label)
         L = int(lab.get("L", "-1"))
-        first = impl.split(";")[0]
+        parts = impl.split(";")
+        second = lab.get("second") == "1"
+        # `second=1`: the announcement under test is the second frame of the stream, behind a well-formed 20-octet one
+        first = (parts[1] if len(parts) > 1 else "missing@0") if second else parts[0]
         cls, _, used = first.partition("@")
         cls = cls.split(":")[0]
-        ctx.count("L_" + ("lt20" if L < 20 else "gt1MiB" if L > (1 << 20) else "inrange") + "_" + cls)
+        ctx.count("L_" + ("lt20" if L < 20 else "gt1MiB" if L > (1 << 20) else "inrange") + "_" + cls + ("_second" if second else ""))
         # how much the script offers at all
-        offered = sum((len(t) - 2) // 2 for t in op[2].split(",") if t.startswith("d:"))
+        offered = sum((len(t) - 2) // 2 for t in op[2].split(",") if t.startswith("d:")) - (20 if second else 0)
         bad = None
-        if cls not in ("ok", "err"):
+        if second and not parts[0].startswith("ok:"):
+            bad = "the well-formed frame in front of the announcement under test was not read (%s)" % parts[0][:40]
+        elif cls not in ("ok", "err"):
             bad = "the stream reader did not return (%s)" % cls
         elif offered >= 4:
             if L > (1 << 20) and not (cls == "err" and used == "4"):
